@@ -420,6 +420,9 @@ type SketchWorld struct {
 	S    []*SkSlot
 	M    []*SkModel
 	T    []*SkSlot // C15 twin world: Clear == replace by a new object
+	// SkipReads: the twin world runs the same history without its read-only
+	// operations (C14) instead
+	SkipReads bool
 	// err is the result of the last fallible operation on the main world
 	err error
 }
@@ -441,7 +444,12 @@ func (o skOp) toOp() mc.Op[*SketchWorld] {
 	return mc.Op[*SketchWorld]{Name: o.name, Writes: o.writes, Do: func(w *SketchWorld) {
 		o.real(w, w.S, false)
 		if w.T != nil {
-			o.real(w, w.T, true)
+			if !w.SkipReads {
+				o.real(w, w.T, true)
+			} else if o.tag != "read" {
+				// (the twin flag only tells an operation not to record its error)
+				o.real(w, w.T, true)
+			}
 		}
 		o.mod(w)
 	}}
@@ -502,7 +510,7 @@ func skCopy(a, b int) skOp {
 func skClear(s int) skOp {
 	return skOp{name: fmt.Sprintf("%s.Clear()", slotName(s)), tag: "clear", writes: 1 << uint(s),
 		real: func(w *SketchWorld, st []*SkSlot, twin bool) {
-			if twin {
+			if twin && !w.SkipReads {
 				st[s] = NewSkSlot(st[s].Mapping(), st[s].Store, st[s].Exact)
 			} else {
 				st[s].Q().Clear()
@@ -578,7 +586,7 @@ func skProto(a, b int) skOp {
 		}}
 }
 func skRead(s int) skOp {
-	return skOp{name: fmt.Sprintf("read %s: quantiles, min, max, sum, ForEach", slotName(s)), tag: "read",
+	return skOp{name: fmt.Sprintf("read %s: quantiles, min, max, sum, ForEach (complete, stopped after 1 and 2 bins)", slotName(s)), tag: "read",
 		real: func(_ *SketchWorld, st []*SkSlot, _ bool) {
 			q := st[s].Q()
 			q.GetValueAtQuantile(0.5)
@@ -588,6 +596,10 @@ func skRead(s int) skOp {
 			q.GetSum()
 			q.GetCount()
 			q.ForEach(func(float64, float64) bool { return false })
+			for k := 1; k <= 2; k++ {
+				n := 0
+				q.ForEach(func(float64, float64) bool { n++; return n >= k })
+			}
 		},
 		mod: func(*SketchWorld) {}}
 }
@@ -620,8 +632,10 @@ type SketchScenarioSpec struct {
 	Seeds    []mc.Seed[*SketchWorld]
 	Depth    int
 	Twin     bool
-	Frame    string
-	LastTags []string
+	// NoReadTwin: the twin world runs the same history without its read-only operations (C14)
+	NoReadTwin bool
+	Frame      string
+	LastTags   []string
 	// Checks are the state oracles of the property (run on a disposable instance).
 	Checks []func(w *SketchWorld, slot int) []mc.Fail
 	// ContentClause compares bins and zero weight with the reference, exactly.
@@ -659,7 +673,7 @@ func (sp *SketchScenarioSpec) Build() *mc.Scenario[*SketchWorld] {
 		}
 	}
 	sc.Fresh = func() *SketchWorld {
-		w := &SketchWorld{Spec: sp.Map, Map: sp.Map.New()}
+		w := &SketchWorld{Spec: sp.Map, Map: sp.Map.New(), SkipReads: sp.NoReadTwin}
 		for i, k := range sp.Stores {
 			var sl *SkSlot
 			if sp.Ctor != nil {
@@ -670,7 +684,7 @@ func (sp *SketchScenarioSpec) Build() *mc.Scenario[*SketchWorld] {
 			}
 			w.S = append(w.S, sl)
 			w.M = append(w.M, NewSkModel(k, sp.Map, w.Map))
-			if sp.Twin {
+			if sp.Twin || sp.NoReadTwin {
 				var tw *SkSlot
 				if sp.Ctor != nil {
 					tw = sp.Ctor(i)
@@ -733,6 +747,12 @@ func (sp *SketchScenarioSpec) Build() *mc.Scenario[*SketchWorld] {
 				if got, want := SketchContent(q), w.M[i].Content(); got != want {
 					fails = append(fails, mc.Fail{Clause: sp.ContentClause,
 						Detail: fmt.Sprintf("slot %s (%s store, %s) bins differ from the reference\n  got:  %s\n  want: %s", slotName(i), w.S[i].Store, w.M[i].Spec, got, want)})
+				}
+			}
+			if sp.NoReadTwin {
+				if twin := ObserveSketch(w.T[i].Q()); real != twin {
+					fails = append(fails, mc.Fail{Clause: "C14.reads-leave-no-trace",
+						Detail: fmt.Sprintf("slot %s (%s store): the same history without its read-only operations leads to other answers\n  with reads:    %s\n  without reads: %s", slotName(i), w.S[i].Store, real, twin)})
 				}
 			}
 			if sp.Twin {
